@@ -185,6 +185,16 @@ const HOSTILE_TEXT: &[&[u8]] = &[
     b"\xef\xbf\xbf",         // U+FFFF
 ];
 
+/// (a multi-byte character, where to cut it)
+pub const STRADDLE: &[(&[u8], usize)] = &[
+    (b"\xc3\xa9", 1),
+    (b"\xe4\xbd\xa0", 1),
+    (b"\xe4\xbd\xa0", 2),
+    (b"\xf0\x9d\x84\x9e", 1),
+    (b"\xf0\x9d\x84\x9e", 2),
+    (b"\xf0\x9d\x84\x9e", 3),
+];
+
 fn lp(b: &[u8]) -> Vec<u8> {
     let mut v = vec![(b.len() >> 8) as u8, b.len() as u8];
     v.extend_from_slice(b);
@@ -211,12 +221,25 @@ pub fn hostile_text_frames(r: &mut Rng, fam: Fam, out: &mut Vec<Vec<u8>>) {
                     let mut b = vec![id];
                     b.extend_from_slice(&lp(h));
                     if kind == PK::Pair {
-                        if r.bool() {
-                            b.extend_from_slice(&lp(b"v"));
-                        } else {
-                            b = vec![id];
-                            b.extend_from_slice(&lp(b"k"));
-                            b.extend_from_slice(&lp(h));
+                        match r.below(3) {
+                            0 => b.extend_from_slice(&lp(b"v")),
+                            1 => {
+                                b = vec![id];
+                                b.extend_from_slice(&lp(b"k"));
+                                b.extend_from_slice(&lp(h));
+                            }
+                            _ => {
+                                // one multi-byte character straddling the name/value boundary: each
+                                // half is ill-formed although their concatenation is well-formed
+                                let (ch, cut) = *r.pick(STRADDLE);
+                                let mut name = b"k".to_vec();
+                                name.extend_from_slice(&ch[..cut]);
+                                let mut value = ch[cut..].to_vec();
+                                value.extend_from_slice(b"v");
+                                b = vec![id];
+                                b.extend_from_slice(&lp(&name));
+                                b.extend_from_slice(&lp(&value));
+                            }
                         }
                     }
                     f.segs[i].bytes = b;
@@ -225,6 +248,26 @@ pub fn hostile_text_frames(r: &mut Rng, fam: Fam, out: &mut Vec<Vec<u8>>) {
             }
             f.reframe();
             out.push(f.bytes());
+        }
+    }
+    // one character straddling two adjacent text fields
+    for w in spots.windows(2) {
+        if w[1] != w[0] + 1 {
+            continue;
+        }
+        if let (Role::Str(_), Role::Str(_)) = (&f0.segs[w[0]].role, &f0.segs[w[1]].role) {
+            let (ch, cut) = *r.pick(STRADDLE);
+            let mut f: Frame = f0.clone();
+            let mut a = f.segs[w[0]].bytes[2..].to_vec();
+            a.extend_from_slice(&ch[..cut]);
+            let mut b2 = ch[cut..].to_vec();
+            b2.extend_from_slice(&f.segs[w[1]].bytes[2..]);
+            if a.len() <= 65_535 && b2.len() <= 65_535 {
+                f.segs[w[0]].bytes = lp(&a);
+                f.segs[w[1]].bytes = lp(&b2);
+                f.reframe();
+                out.push(f.bytes());
+            }
         }
     }
 }
